@@ -28,6 +28,7 @@ let get_op = function
   | L [A "urel"; u] -> OUserRel (get_n u)
   | L [A "construct"; c; ks; nc] -> OConstruct (get_n c, get_list get_n ks, get_nat nc)
   | L [A "unregistern"; c; ks] -> OUnregisterN (get_n c, get_list get_n ks)
+  | L [A "incfail"; x; inlock] -> OIncFail (get_lref x, get_bool inlock)
   | _ -> bad "op"
 let put_lock = function KStat n -> L [A "s"; put_n n] | KChild (c, j) -> L [A "c"; put_n c; put_n j]
 let put_loc = function LStat n -> L [A "s"; put_n n] | LChild (c, j) -> L [A "c"; put_n c; put_n j]
